@@ -28,6 +28,7 @@ RULE = (
     "limit=4; non-trivial = at least one retried failure; distinct = distinct configuration+sequence"
 )
 RULE += '; an earlier complete call of the same wrapper (own outcome script) may precede the judged call'
+RULE += '; one exception instance per kind may be raised again and again; the calling task may have absorbed a cancel earlier'
 LEVEL_TEXT = (
     "Reference scan of the scripted outcome sequence decides the number of invocations, the returned value / raised "
     "exception object (identity), and the exact list of pauses. Finite configuration space: enumerated completely for "
@@ -213,6 +214,7 @@ def run_case(case) -> Outcome:
     # "warm": an earlier, complete call of the SAME wrapper (its own outcome sequence) - every call counts its own attempts
     # and asks the delay function itself
     phase = {"seq": case.get("warm") or seq}
+    shared: dict = {}
 
     def end_warm_up():
         phase["seq"] = seq
@@ -228,7 +230,14 @@ def run_case(case) -> Outcome:
             v = ("value", i)
             produced.append(v)
             return v
-        e = _make_exc(kind, i, ncatch, case.get("builtin"))
+        if case.get("shared_exc"):
+            # the function fails with ONE pre-built instance per kind of failure (a stored error, an already failed future's
+            # exception) - in every attempt and in every call: each call still makes its own attempts
+            if kind not in shared:
+                shared[kind] = _make_exc(kind, 0, ncatch, case.get("builtin"))
+            e = shared[kind]
+        else:
+            e = _make_exc(kind, i, ncatch, case.get("builtin"))
         produced.append(e)
         raise e
 
@@ -324,6 +333,13 @@ def run_case(case) -> Outcome:
                 for a_, _v in a_rebound:
                     setattr(R, a_, rec_sleep)
             try:
+                if case.get("swallowed_cancel"):
+                    # the calling task absorbed a cancellation request earlier (Task.cancelling() stays > 0): retries go on
+                    asyncio.current_task().cancel()
+                    try:
+                        await asyncio.sleep(0)
+                    except asyncio.CancelledError:
+                        pass
                 if case.get("warm"):
                     try:
                         await wrapped(*args, **kwargs)
@@ -420,6 +436,10 @@ def run_case(case) -> Outcome:
         classes.append("async")
     if case.get("warm"):
         classes.append("earlier-call-of-the-same-wrapper")
+    if case.get("shared_exc"):
+        classes.append("one-exception-instance-raised-again-and-again")
+    if case.get("swallowed_cancel") and case["variant"] == "async":
+        classes.append("calling-task-absorbed-a-cancel-earlier")
     out.classes = classes
     out.nontrivial = exp_calls > 1
     return out
@@ -479,6 +499,10 @@ def enumerate_cases(tier):
             for delay in ({"k": "none"}, {"k": "float", "v": 0.5}, {"k": "fn"}):
                 for variant in ("sync", "async"):
                     yield {**_case(variant, False, 2, "class", 1, delay, [*seq, "ok"]), "warm": warm}
+                    if delay["k"] == "none":
+                        yield {**_case(variant, False, 2, "class", 1, delay, [*seq, "ok"]), "warm": warm, "shared_exc": True}
+    for seq in itertools.product(["ok", "caught", "sub", "uncaught"], repeat=3):
+        yield {**_case("async", False, 2, "class", 1, {"k": "none"}, [*seq, "ok"]), "swallowed_cancel": True}
     # two overlapping calls of one wrapped async function (limit 1..2, every pair of short outcome scripts)
     short = ["ok", "caught", "uncaught"]
     for limit in (1, 2):
@@ -501,7 +525,7 @@ def strategy(tier):
         kwargs = draw(st.dictionaries(st.sampled_from(["k", "x", "y"]), st.integers(0, 3), max_size=2))
         builtin = draw(st.sampled_from([False, False, True]))
         warm = draw(st.one_of(st.none(), st.none(), st.lists(st.sampled_from(["caught", "caught", "sub", "ok", "uncaught"]), min_size=1, max_size=limit + 1)))
-        return {"builtin": builtin, "warm": warm, "in_scope": draw(st.integers(0, 2)) == 0, **_case(
+        return {"builtin": builtin, "warm": warm, "in_scope": draw(st.integers(0, 2)) == 0, "shared_exc": draw(st.integers(0, 3)) == 0, "swallowed_cancel": draw(st.integers(0, 4)) == 0, **_case(
             draw(st.sampled_from(["sync", "async"])),
             draw(st.booleans()) and draw(st.booleans()),
             limit,
